@@ -36,6 +36,9 @@ are paired with the attributes in their current order, keywords address the curr
 Family `falsy` (D only, see _falsy_case): generators that yield falsy ids; peek returns the pending value whatever it is and
 never reads from readfunc, next hands out the values in order without skipping any.
 
+Families `override` and `kwnames` (D only, see _override_case / _kwnames_case): a generator overriding next() is what every
+drawing route uses; a keyword named like an internal parameter of the library sets the attribute of that name.
+
 Family `twin` (D only, see _twin_case): two metamodels with the same classes in one process, with separate generators or
 sharing one generator object, swapping and sharing generators along the way.  D: a defaulted id comes from the current
 generator of the metamodel the instance is created in, is non-null and new; only that generator advances, by the
@@ -67,6 +70,10 @@ RULE = ('(1) exhaustive: every interleaving of peek / next of length <= 9 (quick
         '(8) falsy ids (D only): IdGenerator subclasses whose readfunc yields 0, \'\', 0.0, False, () among ordinary values (zero-based '
         'counter, negative start, mixed), 2-10 peek / next / next() / next(iter()) calls: peek returns the pending value and reads '
         'nothing, next hands out every value in order; '
+        '(9) generators that OVERRIDE next() (D only: offset, skip, record): ids of new instances and gen.next() / next(gen) / '
+        'gen.__next__() / next(iter(gen)) all yield the override\'s sequence; (10) attribute names equal to plausible internal '
+        'parameter names (inst, args, kwargs, metaclass, cls, name, value, key, m, ...) supplied by keyword through all three '
+        'creation routes (D only); '
         '(4) two metamodels in one process (D only) with the same classes, separate generators or one shared generator '
         'object, 4-14 ops of new (through metamodel / metaclass / call) / fresh generator / take over the other one\'s generator / '
         'load short rows, in either metamodel; '
@@ -413,6 +420,43 @@ def _falsy_case(r):
     return {'gen': 'user', 'start': 1, 'step': 1, 'fam': 'falsy', 'kind_of_sequence': kind, 'seq': seq, 'ops': [[o] for o in ops]}
 
 
+INTERNAL_NAMES = ['inst', 'args', 'kwargs', 'metaclass', 'cls', 'name', 'value', 'attr', 'key', 'm', 'metamodel', 'kind',
+                  'attributes', 'ty', 'type_name', 'instance', 'other', 'link', 'names', 'lookup', 'default']
+
+
+def _override_case(r):
+    """D-only family `override`: a user generator that overrides next() itself (not readfunc): it offsets every id, skips some
+    values, or records what it hands out.  Every way of drawing - MetaClass.default_value for a new instance, gen.next(),
+    next(gen), gen.__next__(), next(iter(gen)) - must go through the override: the values, in order, are the override's sequence."""
+    ops = []
+    for _ in range(r.randint(3, 12)):
+        ops.append([r.choice(['new', 'new', 'new-mc', 'new-call', 'next', 'next2', 'dunder', 'iter'])])
+    return {'gen': 'user', 'start': 1, 'step': 1, 'fam': 'override', 'variant': r.choice(['offset', 'skip', 'record']),
+            'two_ids': r.random() < 0.3, 'ops': ops}
+
+
+def _kwnames_case(r):
+    """D-only family `kwnames`: attributes whose names are plausible INTERNAL parameter / variable names of the library (inst,
+    args, kwargs, metaclass, cls, name, value, attr, key, m, metamodel, kind, ...), supplied by keyword through MetaModel.new,
+    MetaClass.new and MetaClass.__call__: the keyword sets the attribute, whatever it is called.  (`self` through any route and
+    `kind` through MetaModel.new(kind, ...) collide with the PUBLIC signatures and are not generated.)"""
+    names = r.sample(INTERNAL_NAMES, r.randint(2, 5))
+    attrs = [[nm if r.random() < 0.7 else nm.capitalize(), respell(r, r.choice(['INTEGER', 'STRING']))] for nm in names]
+    ops = []
+    for _ in range(r.randint(2, 6)):
+        route = r.choice(['m', 'mc', 'call'])
+        kws = []
+        for a, t in attrs:
+            if r.random() < 0.6:
+                sp = r.choice([a, a.lower(), a.lower(), respell(r, a)])
+                if route == 'm' and sp == 'kind':
+                    continue
+                if sp not in [k for k, _ in kws]:
+                    kws.append([sp, r.randint(1, 99) if t.upper() == 'INTEGER' else 'v%d' % r.randint(1, 99)])
+        ops.append(['new', route, kws])
+    return {'gen': 'user', 'start': 1, 'step': 1, 'fam': 'kwnames', 'attrs': attrs, 'ops': ops}
+
+
 def _twin_case(r):
     """D-only family: TWO metamodels in one process that define the same classes (same kinds, same attribute names).  They
     start with separate generators or SHARE one generator object; during the history either one gets a fresh generator
@@ -473,6 +517,12 @@ def generate(ctx):
     fr = ctx.rng.fork('falsy')
     for i in range(ctx.pick(1500, 12000)):
         yield _falsy_case(fr.fork(i))
+    orr = ctx.rng.fork('override')
+    for i in range(ctx.pick(1000, 8000)):
+        yield _override_case(orr.fork(i))
+    kr = ctx.rng.fork('kwnames')
+    for i in range(ctx.pick(1000, 8000)):
+        yield _kwnames_case(kr.fork(i))
     tr = ctx.rng.fork('twin')
     for i in range(ctx.pick(1200, 15000)):
         yield _twin_case(tr.fork(i))
@@ -840,6 +890,115 @@ def _run_falsy(case):
             'model_line': None}
 
 
+def _run_override(case):
+    x = _x
+    variant = case['variant']
+    record = []
+
+    class Over(x.IdGenerator):
+        def __init__(self):
+            self.n = 0
+            x.IdGenerator.__init__(self)
+
+        def readfunc(self):
+            self.n += 1
+            return self.n
+
+        def next(self):
+            v = x.IdGenerator.next(self)
+            if variant == 'offset':
+                return v + 1000
+            if variant == 'skip':
+                while v % 3 == 0:
+                    v = x.IdGenerator.next(self)
+                return v
+            record.append(v)
+            return v
+    g = Over()
+    m = x.MetaModel(g)
+    attrs = [('Id', 'unique_id'), ('n', 'integer')] + ([('Id2', 'UNIQUE_ID')] if case['two_ids'] else [])
+    mc = m.define_class('O', attrs)
+
+    def expected(k):
+        """the k-th value (0-based) the OVERRIDE hands out"""
+        if variant == 'offset':
+            return 1001 + k
+        if variant == 'skip':
+            return [v for v in range(1, 3 * k + 6) if v % 3][k]
+        return k + 1
+    fails = []
+    stats = {'cases_override': 1, 'override_' + variant: 1}
+    drawn = 0
+
+    def check(v, how, n):
+        nonlocal drawn
+        want = expected(drawn)
+        if v != want or type(v) is not int:
+            if len(fails) < 3:
+                fails.append({'sig': 'override-bypassed', 'what': '%s yielded %r as value number %d; the generator overrides next() (%s) and '
+                              'hands out %r there; history %r' % (how, v, drawn + 1, variant, want, case['ops'][:n + 1])})
+        drawn += 1
+    for n, (op,) in enumerate(case['ops']):
+        stats['op_' + op] = stats.get('op_' + op, 0) + 1
+        if op in ('new', 'new-mc', 'new-call'):
+            inst = m.new('O') if op == 'new' else (mc.new() if op == 'new-mc' else mc())
+            if inst is None:
+                fails.append({'sig': 'new-returns-other', 'what': 'new returned None; history %r' % (case['ops'][:n + 1],)})
+                break
+            for a, t in attrs:
+                if t.upper() == 'UNIQUE_ID':
+                    check(inst.__dict__.get(a), 'the default of %s of a new instance' % a, n)
+        elif op == 'next':
+            check(next(g), 'next(gen)', n)
+        elif op == 'next2':
+            check(g.next(), 'gen.next()', n)
+        elif op == 'dunder':
+            check(g.__next__(), 'gen.__next__()', n)
+        else:
+            check(next(iter(g)), 'next(iter(gen))', n)
+    if variant == 'record' and record != [expected(k) for k in range(drawn)] and len(fails) < 3:
+        fails.append({'sig': 'override-bypassed', 'what': 'the recording override saw %r, %d values were handed out; history %r'
+                      % (record, drawn, case['ops'])})
+    kinds = set(o[0][:3] for o in case['ops'])
+    return {'obs': [], 'd_fail': fails, 'nontrivial': len(kinds) >= 2, 'key': 'override/%s/%r/%r' % (variant, case['two_ids'], case['ops']),
+            'stats': stats, 'model_line': None}
+
+
+def _run_kwnames(case):
+    x = _x
+    m = x.MetaModel(x.IntegerGenerator())
+    attrs = [tuple(a) for a in case['attrs']]
+    mc = m.define_class('W', list(attrs))
+    fails = []
+    stats = {'cases_kwnames': 1}
+    for n, (_, route, kws) in enumerate(case['ops']):
+        kw = dict((k, v) for k, v in kws)
+        try:
+            inst = m.new('W', **kw) if route == 'm' else (mc.new(**kw) if route == 'mc' else mc(**kw))
+        except TypeError as e:
+            fails.append({'sig': 'keyword-name-collides', 'what': 'creating an instance (route %s) with the keywords %r raised TypeError: %s; '
+                          'the class declares %r' % (route, kws, e, case['attrs'])})
+            continue
+        if inst is None:
+            fails.append({'sig': 'new-returns-other', 'what': 'new returned None (route %s)' % route})
+            continue
+        want = dict((a, KNOWN[t.upper()]) for a, t in attrs)
+        for k, v in kws:
+            for a, t in attrs:
+                if a.upper() == k.upper():
+                    want[a] = v
+        for a, t in attrs:
+            have = inst.__dict__.get(a, Sym('ABSENT'))
+            if have != want[a] or type(have) is not type(want[a]):
+                fails.append({'sig': 'argument-order', 'what': 'new (route %s) with the keywords %r: attribute %r holds %r, expected %r; the class '
+                              'declares %r' % (route, kws, a, have, want[a], case['attrs'])})
+        stray = [k for k in inst.__dict__ if k not in [a for a, _ in attrs]]
+        if stray:
+            fails.append({'sig': 'argument-order', 'what': 'new (route %s) with the keywords %r left values under %r' % (route, kws, stray)})
+    return {'obs': [], 'd_fail': fails[:3], 'nontrivial': any(len(o[2]) >= 2 for o in case['ops']),
+            'key': 'kwnames/%r/%r' % (case['attrs'], case['ops']), 'stats': stats, 'model_line': None}
+
+
 def _run_twin(case):
     x = _x
     import logging
@@ -970,6 +1129,10 @@ def run_impl(case):
         return _run_layout(case)
     if case.get('fam') == 'falsy':
         return _run_falsy(case)
+    if case.get('fam') == 'override':
+        return _run_override(case)
+    if case.get('fam') == 'kwnames':
+        return _run_kwnames(case)
     x = _x
     uuid_log = []
     gen = _make_generator(case, uuid_log)
